@@ -180,9 +180,29 @@ def bounded(rep, tier, seed):
                 bad.append(f"{d}: options {kw} change {diff[:4]}")
             if len(r) != len(pop):
                 bad.append(f"{d}: options {kw}: {len(r)} rows for {len(pop)} input rows")
-        # S: index labels
-        for labels in (list(range(100, 100 + len(pop))), list(reversed(range(len(pop)))), [f"r{i}" for i in range(len(pop))]):
+        # S: index labels; the last variant also has its rows in an order that is not sorted by household
+        # and person (the result must follow the INPUT order, also in debug mode)
+        for labels in (list(range(100, 100 + len(pop))), list(reversed(range(len(pop)))), [f"r{i}" for i in range(len(pop))], "unsorted-rows"):
             p2 = pop.copy()
+            if labels == "unsorted-rows":
+                order = list(range(len(pop)))
+                random.Random(seed + 5).shuffle(order)
+                p2 = pop.iloc[order].reset_index(drop=True)
+                for kw in ({}, {"debug": True}):
+                    try:
+                        r, _ = apirel.simulate(e, p2, targets=defaults, **kw)
+                    except Exception as ex:  # noqa: BLE001
+                        bad.append(f"{d}: rows in unsorted order {kw}: call fails: {ex!r}"[:300])
+                        continue
+                    n_eval += 1
+                    distinct.add((d, "unsorted-rows", json.dumps(kw)))
+                    back = r.reset_index(drop=True).iloc[numpy.argsort(order)].reset_index(drop=True) if len(r) == len(pop) else r
+                    diff = apirel.compare_frames(dflt, back, defaults, rtol=1e-12, atol=1e-9) if len(r) == len(pop) else ["row count"]
+                    if diff:
+                        bad.append(f"{d}: rows not sorted by household / person {kw}: the result does not follow the input order (or values changed) in {diff[:4]}")
+                    if kw.get("debug") and "p_id" in r.columns and list(r["p_id"]) != list(p2["p_id"]):
+                        bad.append(f"{d}: rows not sorted by household / person, debug=True: the p_id column of the result is {list(r['p_id'])[:6]}.., the input order is {list(p2['p_id'])[:6]}..")
+                continue
             p2.index = labels
             if labels[0] == 100:
                 for c in ("alter", "geburtsjahr"):
